@@ -179,7 +179,8 @@ func (c *c12ctx) eval(fn *ssa.Function, args []eng.CVal, st *c12state) (*eng.Con
 		// helpers of the case analysis (predicates, classifiers) are evaluated; a helper that returns a coordinate
 		// without seeing the record is a computation and yields a fresh symbol
 		if ok, _ := returnsCoord(callee); ok {
-			return false
+			// ... unless it merely selects one of the coordinates it was handed (every return is a parameter or nil)
+			return selectsParam(callee)
 		}
 		return true
 	}
@@ -1122,4 +1123,26 @@ func normalisationOriginRule(p *core.Program, r *core.Report, rule string) {
 		name := [2]string{"x", "y"}[axis]
 		r.Check(bad == "" && nOrders > 0, rule, short(fn)+"/"+name, p.Pos(fn.Pos()), true, fmt.Sprintf("origin inside the envelope overlap for all %d overlapping orders", nOrders), bad)
 	}
+}
+
+// selectsParam: every return of fn hands back one of fn's parameters unchanged, or nil (a selector, not a computation).
+func selectsParam(fn *ssa.Function) bool {
+	n := 0
+	for _, b := range fn.Blocks {
+		ret, ok := b.Instrs[len(b.Instrs)-1].(*ssa.Return)
+		if !ok {
+			continue
+		}
+		if len(ret.Results) != 1 {
+			return false
+		}
+		n++
+		if eng.IsNilConst(ret.Results[0]) {
+			continue
+		}
+		if _, isP := ret.Results[0].(*ssa.Parameter); !isP {
+			return false
+		}
+	}
+	return n > 0
 }
